@@ -125,6 +125,7 @@ SIG_N1 = {"site": "application.apply", "shape": "non-empty patch that yields no 
 SIG_N2 = {"site": "process_resource_causes+apply", "shape": "cycle entered with a carried handler patch function that has become a no-op: handlers skipped, nothing written, no further event — the newer change is never handled"}
 SIG_N3 = {"site": "process_changing_cause", "shape": "one handler id registered for two causes: the finished record of the other cause is re-purposed, the handler of the current cause is never called"}
 SIG_N4 = {"site": "process_resource_causes", "shape": "object marked for deletion, not held by the framework's finalizer but by another: out of sight, stale progress record / last-handled stay"}
+SIG_N5 = {"site": "watching.streaming_block", "shape": "graceful stop never finishes: the watcher's cancellation is swallowed (stop requested while the watcher leaves its streaming block after a 410)"}
 SIG_F4 = {"site": "process_changing_cause", "shape": "handler finished on an older state of a still-open cycle is not re-run for the newer state, yet last-handled becomes the newer state"}
 
 
@@ -346,6 +347,16 @@ def oracle(ctx: Ctx, sc: dict, tr: dict) -> dict:
                             {**rep, "cycle": cyc["i"]}, {"site": "process_changing_cause", "shape": "last-handled stored before all selected handlers finished"})
             out["class"] = "closed-early"
             return out
+
+    # a graceful stop that did not finish within the grace period (the simulated supervisor then killed the operator)
+    hung = [m for m in tr["marks"] if m["what"] == "stopped" and m.get("result") == "'stop-timeout'" and not m.get("final")]
+    if hung:
+        grace = float(sc.get("stop_grace", 8.0))
+        ctx.oracle_fail(f"a graceful stop requested at t={hung[0]['t'] - grace:.3f} did not finish within the grace period of {grace:.0f} s: "
+                        f"the operator kept running (its watcher went on); killed by the supervisor",
+                        {**rep, "marks": hung}, SIG_N5)
+        out["findings"].append("C03-N5")
+        out["hung_stop"] = True
 
     # quiescence: no write for Tq, and none in a further Tq
     last_write = max([r["wall"] for r in f.patches], default=0.0)
@@ -1042,6 +1053,8 @@ def _evaluate(ctx: Ctx, scenarios: list[dict], tie: bool = True) -> None:
         for fd in o["findings"]:
             ctx.count("finding", fd)
         ctx.count("downtime_with_edits", o.get("downtime_edits", 0))
+        if o.get("hung_stop"):
+            ctx.count("graceful_stop", "hung-then-killed")
         ctx.count("ops", len(sc.get("timeline", [])))
         ctx.count("echo_delay", (sc.get("echo_delay") or {}).get("default", 0))
         b0 = next((e[3] for e in sc.get("timeline", []) if e[1] == "create" and len(e) > 3), None) or (sc.get("objects") or [{}])[0].get("body")
